@@ -616,6 +616,8 @@ where
     let mut pool: Vec<Option<RangeProof<P>>> = vec![];
     let mut pool_params: Vec<Option<RangeParameters<P>>> = vec![];
     let mut out_members = vec![];
+    // witness objects of earlier members, kept for members that REUSE one of them after replacing its openings in place (public field)
+    let mut witness_pool: Vec<Option<RangeWitness>> = vec![];
 
     for m in spec["members"].as_array().unwrap_or(&vec![]) {
         let mut rec = json!({});
@@ -626,6 +628,7 @@ where
                 rec["statement"] = json!(format!("err:{}", e));
                 pool.push(None);
                 pool_params.push(None);
+                witness_pool.push(None);
                 out_members.push(rec);
                 continue;
             },
@@ -645,16 +648,28 @@ where
                 CommitmentOpening::new(v, r)
             })
             .collect();
-        let witness = match RangeWitness::init(openings) {
-            Ok(w) => w,
-            Err(e) => {
-                rec["witness"] = json!(format!("err:{}", err_name(&e)));
-                pool.push(None);
-                pool_params.push(Some(params));
-                out_members.push(rec);
-                continue;
+        let reused = m["reuse_witness_of"].as_u64().and_then(|k| witness_pool.get(k as usize).cloned().flatten());
+        let witness = match reused {
+            Some(mut w) if w.openings.len() == openings.len() => {
+                // the caller keeps ONE witness object and writes the new openings into it, element by element
+                for (slot, o) in w.openings.iter_mut().zip(openings.into_iter()) {
+                    *slot = o;
+                }
+                w
+            },
+            _ => match RangeWitness::init(openings) {
+                Ok(w) => w,
+                Err(e) => {
+                    rec["witness"] = json!(format!("err:{}", err_name(&e)));
+                    pool.push(None);
+                    pool_params.push(Some(params));
+                    witness_pool.push(None);
+                    out_members.push(rec);
+                    continue;
+                },
             },
         };
+        witness_pool.push(Some(witness.clone()));
         rec["witness"] = json!("ok");
         if m["prove"].as_bool().unwrap_or(true) {
             let mut rng = ScriptRng::from_spec(&m["rng"]);
